@@ -401,6 +401,47 @@ func (g *skGen) stmt(s ast.Stmt) []string {
 			return out
 		}
 		return g.unknown(s)
+	case *ast.SwitchStmt:
+		// a switch without tag is an if / else-if chain (cases with one expression each, default last)
+		if x.Tag == nil && x.Init == nil {
+			var first, last *ast.IfStmt
+			ok := true
+			for _, cc := range x.Body.List {
+				clause, isClause := cc.(*ast.CaseClause)
+				if !isClause {
+					ok = false
+					break
+				}
+				for _, st := range clause.Body {
+					if br, isBr := st.(*ast.BranchStmt); isBr && (br.Tok == token.FALLTHROUGH || br.Tok == token.BREAK) {
+						ok = false
+					}
+				}
+				if clause.List == nil {
+					if last == nil || cc != x.Body.List[len(x.Body.List)-1] {
+						ok = false
+						break
+					}
+					last.Else = &ast.BlockStmt{List: clause.Body}
+					continue
+				}
+				if len(clause.List) != 1 {
+					ok = false
+					break
+				}
+				n := &ast.IfStmt{Cond: clause.List[0], Body: &ast.BlockStmt{List: clause.Body}}
+				if first == nil {
+					first = n
+				} else {
+					last.Else = n
+				}
+				last = n
+			}
+			if ok && first != nil {
+				return g.stmt(first)
+			}
+		}
+		return g.unknown(s)
 	case *ast.IfStmt:
 		if hasCall(g, x.Cond) {
 			return g.unknown(s)
